@@ -92,6 +92,7 @@ func init() {
 		Explanation: "Decides: the five queues are updated only in order-preserving forms, including the re-queue of not-yet-processed events before newer ones (FIFO/queues); a worker is woken only on the empty→non-empty transition of a resource queue and never while locks are set (DOM/inch-send), so one worker at a time runs a queue; handleEvent stamps, applies and fans out inside one unlock window with no go statement (CONF/handle-event); Subscriber.Event only enqueues and the continuation of every handler runs on the connection worker (CTX/conn); an applied update advances cache and subscriber versions by exactly one and a stamped event is applied only at its version, hence at most once (PAIR/version-bump, DOM/version-filter); nothing is processed before the hand-over or while the gate is closed, with the in-loop re-test (DOM/event-gate); the bookkeeping of a callback slot (in-flight flag, cached verdict, the slot itself) is finished before the slot's continuations run, so a re-access started from inside a callback is not lost (DOM/drain-reentrancy). Not decided: the capacity countdown of the lock list, delivery by the socket, the 'equivalent derived sequence' exception (C12). Added after seeding round 7: the held-back events of a frame's resources are let through only after the frame that first hands the resources over (PAIR/rpc-resources). Added after seeding round 8: in the edit-script back-tracking, branches that compare the same two LCS-table cells cover every ordering, so the derived sequence is not cut short on a tie (TABLE/lcs-exhaustive; decides the present formulation of the algorithm only).",
 		Assumptions: baseAssumptions,
 		Rules: []Rule{
+			{Name: "TABLE/remove-run", Min: 0, Run: ruleRemoveRun, Doc: "derived removes of one loop do not use the loop's ascending counter as index (each remove shifts the rest)"},
 			{Name: "TABLE/lcs-exhaustive", Min: 0, Run: ruleLCSExhaustive, Doc: "the edit-script back-tracking leaves no ordering of two table cells to neither branch (derived sequences are not cut short)"},
 			{Name: "PAIR/rpc-resources", Min: 2, Run: ruleRPCResources, Doc: "the resources of a frame are released (their held-back events let through) only after the frame that first hands them to the client"},
 			{Name: "LIN/queue-detach", Min: 1, Run: ruleQueueDetach, Doc: "queued events taken off the subscription are processed or re-queued on every path"},
@@ -263,6 +264,7 @@ func init() {
 		Explanation: "Decides the plumbing and protocol clauses only: a matching entry is re-fetched once, with get.<name> and its normalised query, unless a reset is already outstanding; the resetting flag is set before the request and cleared before the answer is processed, in both the throttled and the unthrottled twin; the base resource (unless it is a link) and every cached query variant are visited exactly once, for resources and for access (DOM/reset-protocol); derived events go through handleEvent, state events are dropped only while resetting (CONF/handle-event); invalid patterns match nothing at the recogniser level (TABLE/reject-set); only valid patterns are matched (DOM/valid-patterns); content is replaced copy-on-write (DOM/copy-on-write). NOT decided — the heart of the property: wildcard matching semantics for all names, that the model diff and the LCS edit script transform old into new with indexes in range, that unchanged content yields no event. Added after seeding round 8: TABLE/lcs-exhaustive (see C03) for the derived add/remove sequence of a re-fetched collection.",
 		Assumptions: baseAssumptions,
 		Rules: []Rule{
+			{Name: "TABLE/remove-run", Min: 0, Run: ruleRemoveRun, Doc: "derived removes of one loop do not use the loop's ascending counter as index (each remove shifts the rest)"},
 			{Name: "TABLE/lcs-exhaustive", Min: 0, Run: ruleLCSExhaustive, Doc: "the edit-script back-tracking leaves no ordering of two table cells to neither branch (derived sequences are not cut short)"},
 			{Name: "PAIR/query-lock", Min: 1, Run: ruleQueryLock, Doc: "a failed query request releases its lock: a later system reset on the resource is processed"},
 			{Name: "DOM/reset-protocol", Min: 1, Run: ruleResetProtocol, Doc: "re-fetch once per matching entry with its normalised query; flag protocol; visit base and queries"},
